@@ -17,6 +17,10 @@ ALLOC_AUDIT = {
     ("vm::State::new", "std::vec::from_elem"): "n_saves = 2 per group + at most two fresh slots per repeat / look-around node, all bounded by the pattern length",
     ("vm::run", "std::vec::Vec::resize"): "(end_group - start_group + 1) * 2: group numbers are bounded by the pattern length",
 }
+# the same audited quantities, recognised by what is allocated rather than by which allocator is called
+ALLOC_QUANTITY = {
+    "Regex::capture_names": (r"^Regex::captures_len\(self\)$", "captures_len() = number of capture groups + 1 <= pattern length"),
+}
 MUST_GUARD = {("parse::Parser::parse_numbered_backref", "bit_set::BitSet::insert"), ("parse::Parser::parse_named_backref", "bit_set::BitSet::insert")}
 
 
@@ -84,6 +88,9 @@ def alloc_sinks(run, ctx):
             if _len_like(size):
                 continue
             if key in ALLOC_AUDIT:
+                continue
+            q = ALLOC_QUANTITY.get(sp)
+            if q and re.match(q[0], M.show(size)):
                 continue
             run.violation(fam, label, "unaudited/%s/%s" % (sp, cs), where,
                           "allocation of size %s in %s (%s) is neither a length of in-memory data nor an audited pattern-bounded quantity" % (M.show(size), sp, cs))
